@@ -13,6 +13,8 @@ import (
 	"sync"
 	"time"
 
+	"github.com/robertkrimen/otto"
+
 	"verif/mc/engine"
 )
 
@@ -80,7 +82,10 @@ func RaceMain() {
 	rounds := flag.Int("rounds", 0, "")
 	par := flag.Int("parallel", 8, "cases in flight")
 	startAt := flag.Int("start", 0, "rotation of the case order")
+	bridgeFunc := flag.Bool("bridge-func", true, "probe results of reflected Go functions in copies")
+	bridgeSlice := flag.Bool("bridge-slice", true, "probe the length of the bridged Go slice in copies")
 	flag.Parse()
+	opt := Options{NoBridgeFunc: !*bridgeFunc, NoBridgeSlice: !*bridgeSlice}
 	if *rounds == 0 {
 		*rounds = 2
 		if *tier == "thorough" {
@@ -117,7 +122,7 @@ func RaceMain() {
 			go func() {
 				defer wg.Done()
 				for sp := range jobs {
-					c := NewCase(sp, Options{})
+					c := NewCase(sp, opt)
 					start := make(chan struct{})
 					var tw sync.WaitGroup
 					for i := range c.Threads {
@@ -160,7 +165,7 @@ func RaceMain() {
 		for i := range sp.Bodies {
 			k := soloKey(sp, i)
 			if _, ok := solo[k]; !ok {
-				solo[k] = SoloThread(sp, i)
+				solo[k] = SoloThreadOpt(sp, i, opt)
 			}
 		}
 		if _, ok := solo[sp.Scenario+"|template"]; !ok {
@@ -266,6 +271,16 @@ func racePass(tier string) ([]engine.Mismatch, []string, error) {
 		renv = append(renv, e)
 	}
 	renv = append(renv, "GORACE=halt_on_error=1 exitcode=66", "GOMAXPROCS=16", "TZ=UTC", "GOTRACEBACK=single")
+	// open known finding F-C20-001: while the defect is present the two Probe
+	// items that exercise it are switched off in the free-running pass
+	fnDefect, sliceDefect := BridgeDefects()
+	var bridgeArgs []string
+	if fnDefect {
+		bridgeArgs = append(bridgeArgs, "--bridge-func=false")
+	}
+	if sliceDefect {
+		bridgeArgs = append(bridgeArgs, "--bridge-slice=false")
+	}
 	// several invocations, each with a different rotation of the case order, so
 	// that different cases meet the cold (nothing initialised yet) process start
 	starts := []int{0, 211}
@@ -281,7 +296,7 @@ func racePass(tier string) ([]engine.Mismatch, []string, error) {
 	for _, st := range starts {
 		stdout.Reset()
 		stderr.Reset()
-		run := exec.CommandContext(ctx, bin, "--tier", tier, "--start", fmt.Sprint(st))
+		run := exec.CommandContext(ctx, bin, append([]string{"--tier", tier, "--start", fmt.Sprint(st)}, bridgeArgs...)...)
 		run.Env = renv
 		run.Stdout, run.Stderr = &stdout, &stderr
 		err = run.Run()
@@ -332,8 +347,32 @@ func racePass(tier string) ([]engine.Mismatch, []string, error) {
 		}
 		return []engine.Mismatch{m}, []string{"race: " + kind}, nil
 	}
+	if len(bridgeArgs) > 0 {
+		how2 := fmt.Sprintf("race: known finding F-C20-001 is present in this tree (reflected-function defect: %v, shared slice wrapper: %v): the Probe items that exercise it were switched off in the free-running pass (%s) so that the detector keeps running; they stay on in the cooperative families", fnDefect, sliceDefect, strings.Join(bridgeArgs, " "))
+		summary += "; " + how2
+	}
 	note := fmt.Sprintf("race: %s: no detector report, all logs equal solo; %s; build %.1fs run %.1fs. "+
 		"This half of the verdict is the Go race detector's happens-before analysis over the executed accesses, not an enumeration.",
 		how, summary, buildS, runS)
 	return nil, []string{note}, nil
+}
+
+// BridgeDefects probes, sequentially and in this process, whether the two
+// sub-defects of known finding F-C20-001 are present in the otto tree this
+// binary was built from.
+func BridgeDefects() (reflectedFunc, sliceWrapper bool) {
+	t := otto.New()
+	_ = t.Set("s", []int{1, 2, 3})
+	_ = t.Set("mk", func() []int { return []int{1} })
+	c := t.Copy()
+	if v, err := c.Run(`Object.getPrototypeOf(mk()) === Array.prototype`); err == nil {
+		b, _ := v.ToBoolean()
+		reflectedFunc = !b
+	}
+	_, _ = c.Run(`s.length = 1`)
+	if v, err := t.Run(`s.length`); err == nil {
+		n, _ := v.ToInteger()
+		sliceWrapper = n != 3
+	}
+	return
 }
